@@ -188,6 +188,9 @@ def build(item: dict[str, Any], box: dict[str, Any]) -> Any:
             ks = item["db_fault"] if isinstance(item["db_fault"], list) else [item["db_fault"]]
             for kf in sorted(ks):  # (counted over all INSERT attempts incl. repeats; ascending so that each entry is reached)
                 worker.fail_matching.append(("execute:INSERT:scan_result", kf, dbshim.OperationalError("database is locked")))
+        for kf in sorted(item.get("commit_fault", ())):
+            # 'database is locked' at COMMIT: sqlite keeps the transaction (with the INSERT) open, the commit can be repeated
+            worker.fail_matching.append(("commit:execute:INSERT:scan_result", kf, dbshim.OperationalError("database is locked")))
         loop = run.loop
         dbh = G["DBHandler"](path)
         ecu = G["ECU"](G["ScriptTransport"](st), timeout=1.0, max_retry=item.get("max_retry", 0))
@@ -269,10 +272,14 @@ def judge(item: dict[str, Any], box: dict[str, Any], choices: list[int], res: Re
         return t if len(t) <= 400 else t[:200] + f"...({len(t)} chars)..." + t[-60:]
 
     def v(sig: str, m: str) -> None:
-        res.violate(f"C11|{sig}", short(m) + f" [steps={short(steps)} cancel={item.get('cancel', False)} db_fault={item.get('db_fault')}]", rp)
+        res.violate(f"C11|{sig}", short(m) + f" [steps={short(steps)} cancel={item.get('cancel', False)} db_fault={item.get('db_fault')}{' commit_fault=' + str(item['commit_fault']) if item.get('commit_fault') else ''}]", rp)
 
     if box["status"] != "done":
         v(f"shutdown-hangs|{box['status']}", f"run/shutdown did not finish ({box['status']}); pending db ops: {[p[0] for p in box['worker'].pending]}")
+        return
+    if box.get("main_exc") and item.get("commit_fault") and "OperationalError" in box["main_exc"]:
+        # the connection is shared: under this schedule the injected COMMIT fault hit the harness' own complete_run_meta() call
+        res.count("commit_fault_hit_the_shutdown_path")
         return
     if box.get("main_exc"):
         v("shutdown-raised|" + box["main_exc"].split("(")[0], f"shutdown path raised {box['main_exc']}")
@@ -321,7 +328,7 @@ def judge(item: dict[str, Any], box: dict[str, Any], choices: list[int], res: Re
     may = [e for e in exp if e["inflight"]]
     if len(rows) >= len(must) and len(rows) != len(exp):
         # "every request the client puts on the wire - whatever its outcome": also the one in flight when the run was cancelled
-        v("row-count|exchange-in-flight-at-cancel|" + ("missing" if len(rows) < len(exp) else "extra-rows"),
+        v("row-count|" + ("exchange-in-flight-at-cancel|" if box.get("cancelled") is not None else "") + ("missing" if len(rows) < len(exp) else "extra-rows") + ("|after-commit-fault" if item.get("commit_fault") else ""),
           f"{len(rows)} scan_result rows for {len(exp)} requests on the wire (logging on); the run was cancelled with request #{box.get('cancelled')} in flight, {box.get('cancel_completed')} exchanges were complete")
         return
     if len(rows) < len(must) or len(rows) > len(must) + len(may):
@@ -707,6 +714,12 @@ def items(tier: str, seed: int) -> list[Any]:
         for k in range(len(seq)):
             out.append(({"steps": steps, "db_fault": k}, bound, cap))
             out.append(({"steps": steps, "db_fault": k, "cancel": True}, 1, cap))
+    # a transient error at COMMIT (the INSERT of that row has already been executed)
+    for seq in (("read", "dsc2", "read"), ("read", "nrc", "timeout", "read")):
+        steps = [("req", ALPHA[a][0], ALPHA[a][1], False) for a in seq]
+        for kc in range(len(seq)):
+            out.append(({"steps": steps, "commit_fault": [kc]}, 1, cap))
+        out.append(({"steps": steps, "commit_fault": [0, 1, 3]}, 0, cap))
     # many transient errors over one run: every row's first attempt fails / one row fails many times in a row / both
     long_seq = ("read", "dsc2", "read", "nrc", "key", "read", "timeout", "read", "dsc2", "read")
     steps = [("req", ALPHA[a][0], ALPHA[a][1], False) for a in long_seq]
